@@ -29,6 +29,8 @@ pub enum CEv {
     JoinOk { kind: u8 },
     Cmd { label: String, bytes: Vec<u8> },
     SetDr(u8),
+    /// a confirmed uplink that gets no downlink (lost ACK), then an uplink whose first RNG draw is `draw`
+    UpAfterLostAck { draw: u32 },
 }
 
 /// Judges one transmission. `after` is the MAC snapshot right after the call that transmitted.
@@ -186,6 +188,9 @@ fn enabled_events(region: &str, joined: bool) -> Vec<CEv> {
     for (l, b) in dangerous(region) {
         v.push(CEv::Cmd { label: l, bytes: b });
     }
+    for d in [0u32, 1, 5] {
+        v.push(CEv::UpAfterLostAck { draw: d });
+    }
     // TX power commands
     for txp in [0u8, 1, 5, 7, 10, 14] {
         v.push(CEv::Cmd { label: format!("adr-txpower{txp}"), bytes: cmds::link_adr(15, txp, 0, 6, 1, false).bytes });
@@ -281,6 +286,7 @@ impl<const PW: u8, const GAIN: i8> System for ASys<PW, GAIN> {
         let send = |rx1: Option<Frame>| AEv::Send { confirmed: false, port: 1, len: 1, script: Script { rx1, ..Default::default() } };
         let evs: Vec<AEv> = match ev {
             CEv::Up { draw } => vec![AEv::Rng(vec![*draw]), send(None)],
+            CEv::UpAfterLostAck { draw } => vec![AEv::Send { confirmed: true, port: 1, len: 1, script: Script::default() }, AEv::Rng(vec![*draw]), send(None)],
             CEv::JoinTry { draw } => vec![AEv::Rng(vec![0x4242, *draw]), AEv::Join(Script::default())],
             CEv::JoinTxFault { draw } => vec![AEv::Rng(vec![0x4242, *draw]), AEv::Join(Script { fault_at: Some(0), ..Default::default() })],
             CEv::JoinRun { attempts } => {
@@ -359,6 +365,7 @@ impl<const PW: u8, const GAIN: i8> System for Sys<PW, GAIN> {
         let mut out = vec![];
         let evs: Vec<Ev> = match ev {
             CEv::Up { draw } => vec![Ev::Rng(vec![*draw]), Ev::Cycle { confirmed: false, port: 1, len: 1, rx1: None, rx2: None }],
+            CEv::UpAfterLostAck { draw } => vec![Ev::Cycle { confirmed: true, port: 1, len: 1, rx1: None, rx2: None }, Ev::Rng(vec![*draw]), Ev::Cycle { confirmed: false, port: 1, len: 1, rx1: None, rx2: None }],
             CEv::JoinTry { draw } => vec![Ev::Rng(vec![0x4242, *draw]), Ev::JoinCycle { rx1: None, rx2: None }],
             CEv::JoinTxFault { draw } => vec![Ev::Rng(vec![0x4242, *draw]), Ev::JoinCycleF { rx1: None, rx2: None, fault_at: 0 }],
             CEv::JoinRun { attempts } => {
